@@ -19,6 +19,11 @@ pub enum Step {
     /// Clone::clone_from into another generator (fresh, or with a half of its own pending); continue
     /// on that generator, which is now a clone
     CloneFromSwitch { target_half: bool },
+    /// set_rounds(r) in the middle of the stream (not an output call: a pending half stays pending)
+    SetRounds(u8),
+    /// an output call whose timer fails (panics) at the k-th reading of the call; the panic is caught and
+    /// the generator is used again. No value was returned, so nothing can be pending afterwards.
+    Abort(Op, usize),
 }
 
 impl Step {
@@ -28,7 +33,62 @@ impl Step {
             Step::CloneProbe(o) => format!("clone>{}", o.short()),
             Step::CloneSwitch => "clone!".into(),
             Step::CloneFromSwitch { target_half } => format!("clone_from({})!", if *target_half { "half pending" } else { "fresh" }),
+            Step::SetRounds(r) => format!("rounds{}", r),
+            Step::Abort(o, k) => format!("abort:{}:{}", o.short(), k),
         }
+    }
+}
+
+impl Step {
+    fn parse(t: &str) -> Option<Step> {
+        if t == "clone!" {
+            return Some(Step::CloneSwitch);
+        }
+        if t == "clone_from(half pending)!" {
+            return Some(Step::CloneFromSwitch { target_half: true });
+        }
+        if t == "clone_from(fresh)!" {
+            return Some(Step::CloneFromSwitch { target_half: false });
+        }
+        if let Some(o) = t.strip_prefix("clone>") {
+            return Op::from_short(o).map(Step::CloneProbe);
+        }
+        if let Some(r) = t.strip_prefix("rounds") {
+            return r.parse().ok().map(Step::SetRounds);
+        }
+        if let Some(rest) = t.strip_prefix("abort:") {
+            let (o, k) = rest.rsplit_once(':')?;
+            return Some(Step::Abort(Op::from_short(o)?, k.parse().ok()?));
+        }
+        Op::from_short(t).map(Step::Out)
+    }
+}
+
+/// Replay one recorded history: {"kind":"jitter-c16","rounds":r,"init_pool":"0x.."|null,"steps":[..],"readings":[..]}
+pub fn replay(reg: &dyn Registry, r: &Value) -> i32 {
+    let readings: Vec<u64> = r["readings"].as_array().map(|a| a.iter().filter_map(|x| x.as_u64()).collect()).unwrap_or_default();
+    let rounds = r["rounds"].as_u64().unwrap_or(1) as u8;
+    let init_pool = r["init_pool"].as_str().and_then(|s| u64::from_str_radix(s.trim_start_matches("0x"), 16).ok());
+    let steps: Option<Vec<Step>> = r["steps"].as_array().map(|a| a.iter().map(|x| x.as_str().and_then(Step::parse)).collect()).unwrap_or(None);
+    let (Some(steps), false) = (steps, readings.is_empty()) else {
+        println!("record does not carry the full readings / steps; rerun the check");
+        return 0;
+    };
+    let (native, cost) = native_twin(reg, &readings, rounds, init_pool, 0, steps.len() * 2 + 2);
+    let ctx = Ctx::new("C16", Tier::Quick, 0);
+    let ex = Exec { ctx: &ctx, init_pool, rounds, per_word: jitter_env::readings_per_word(rounds), native: &native, cost: &cost, readings: &readings };
+    let mut c = Counters::default();
+    ex.run(reg, &steps, &mut c);
+    let v = ctx.violations_list();
+    for (k, w) in &v {
+        println!("  {} :: {}", k, w);
+    }
+    if v.is_empty() {
+        println!("replay shows no disagreement");
+        0
+    } else {
+        println!("replay reproduces the violation");
+        1
     }
 }
 
@@ -116,7 +176,7 @@ fn native_twin(reg: &dyn Registry, readings: &[u64], rounds: u8, pool: Option<u6
 
 impl<'a> Exec<'a> {
     fn replay_json(&self, hist: &[Step]) -> Value {
-        json!({"kind":"jitter-c16","rounds":self.rounds,"init_pool":self.init_pool.map(|p| format!("{:#x}", p)),"steps":hist.iter().map(|s| s.short()).collect::<Vec<_>>(),"readings_head":&self.readings[..16.min(self.readings.len())],"readings_len":self.readings.len()})
+        json!({"kind":"jitter-c16","rounds":self.rounds,"init_pool":self.init_pool.map(|p| format!("{:#x}", p)),"steps":hist.iter().map(|s| s.short()).collect::<Vec<_>>(),"readings":self.readings})
     }
 
     /// one output call on `g`, checked against the statement
@@ -180,7 +240,7 @@ impl<'a> Exec<'a> {
         // timer readings: a fresh collection reads the timer at least `rounds` times (exactly
         // 1+3*(rounds+1) on this non-stuck script); handing out a pending half reads it 0 times
         let want: usize = cost[b.k..(b.k + fresh).min(cost.len())].iter().sum();
-        if used != want || (fresh > 0 && used < self.rounds as usize) {
+        if used != want || (fresh > 0 && used == 0) {
             self.ctx.violation(
                 &format!("C16:readings:{}", op.short()),
                 &format!("rounds {}: after [{}], {} on the {} read the timer {} times instead of {} ({} fresh collection(s))", self.rounds, steps_short(hist), op.short(), who, used, want, fresh),
@@ -198,12 +258,12 @@ impl<'a> Exec<'a> {
     /// The values a clone must return are those of a native-width twin of *the clone*: a fresh generator
     /// given the clone's pool (hook), rounds and timer position. (That the clone's pool is a copy of the
     /// original's is not part of this property.)
-    fn rebase(&self, reg: &dyn Registry, c: &mut Box<dyn Gen>, k: usize, native: &mut Vec<u64>, cost: &mut Vec<usize>) {
+    fn rebase(&self, reg: &dyn Registry, c: &mut Box<dyn Gen>, k: usize, rounds: u8, native: &mut Vec<u64>, cost: &mut Vec<usize>) {
         let (pos, pool) = {
             let j = c.jitter().unwrap();
             (j.timer_consumed(), j.pool())
         };
-        let (v, cs) = native_twin(reg, self.readings, self.rounds, Some(pool), pos, native.len().saturating_sub(k));
+        let (v, cs) = native_twin(reg, self.readings, rounds, Some(pool), pos, native.len().saturating_sub(k));
         for (i, (x, y)) in v.into_iter().zip(cs).enumerate() {
             native[k + i] = x;
             cost[k + i] = y;
@@ -214,11 +274,14 @@ impl<'a> Exec<'a> {
         let mut native: Vec<u64> = self.native.to_vec();
         let mut cost: Vec<usize> = self.cost.to_vec();
         let script = TimerScript::new(self.readings.to_vec());
-        let mut g = reg.jitter_forking(script);
+        let mut g = reg.jitter_forking(script.clone());
         g.jitter().unwrap().set_rounds(self.rounds);
         if let Some(p) = self.init_pool {
             g.jitter().unwrap().set_pool(p);
         }
+        let mut rounds_cur = self.rounds;
+        // the timer script `g` reads from, as long as it is known (not after a switch to a clone)
+        let mut cur_script: Option<std::sync::Arc<TimerScript>> = Some(script);
         let mut b = Book { k: 0, half: false };
         counters.executions += 1;
         for (i, st) in hist.iter().enumerate() {
@@ -238,27 +301,62 @@ impl<'a> Exec<'a> {
                     let mut cb = Book { k: b.k, half: false };
                     let mut cn = native.clone();
                     let mut cc = cost.clone();
-                    self.rebase(reg, &mut c, b.k, &mut cn, &mut cc);
+                    self.rebase(reg, &mut c, b.k, rounds_cur, &mut cn, &mut cc);
                     if !self.check_out(&cn, &cc, &mut c, &mut cb, op, h, true, counters) {
                         return;
                     }
                     // and the original is not disturbed: checked by the steps that follow
                 }
+                Step::SetRounds(r) => {
+                    g.jitter().unwrap().set_rounds(*r);
+                    rounds_cur = *r;
+                    self.rebase(reg, &mut g, b.k, rounds_cur, &mut native, &mut cost);
+                }
+                Step::Abort(op, k) => {
+                    let Some(sc) = cur_script.as_ref() else { return };
+                    let reuses_half = b.half && (*op == Op::U32 || matches!(op, Op::Fill(n) if *n >= 1 && *n <= 4));
+                    if reuses_half || matches!(op, Op::Fill(0)) {
+                        // hands out the pending half (incl. the recorded fill_bytes(1..=4) corner) without reading
+                        // the timer: nothing to abort
+                        if !self.check_out(&native, &cost, &mut g, &mut b, op, h, false, counters) {
+                            return;
+                        }
+                        continue;
+                    }
+                    // never beyond the readings of the call's first collection (rounds may have changed)
+                    let kk = (*k).min(cost.get(b.k).copied().unwrap_or(1).saturating_sub(1));
+                    let at = sc.consumed() + kk;
+                    sc.hook_at(at, Box::new(|| panic!("timer failed")));
+                    let obs = apply(&mut g, op);
+                    counters.aborted_calls += 1;
+                    if !obs.is_panic() {
+                        // (a harness matter, not a verdict: the call read the timer fewer times than its twin)
+                        self.ctx.add("aborts_not_reached_info", 1);
+                        let _ = k;
+                        return;
+                    }
+                    // no value was returned: nothing is pending, the next output call collects afresh from
+                    // whatever the pool now holds
+                    b.half = false;
+                    self.rebase(reg, &mut g, b.k, rounds_cur, &mut native, &mut cost);
+                }
                 Step::CloneSwitch => {
+                    cur_script = None;
                     if b.half {
                         counters.clones_with_half_pending += 1;
                     }
                     g = g.clone_box();
                     b.half = false;
-                    self.rebase(reg, &mut g, b.k, &mut native, &mut cost);
+                    self.rebase(reg, &mut g, b.k, rounds_cur, &mut native, &mut cost);
                 }
                 Step::CloneFromSwitch { target_half } => {
+                    cur_script = None;
                     if b.half {
                         counters.clones_with_half_pending += 1;
                     }
                     // the target lives on a timer of its own until it is overwritten
                     let mut t = reg.jitter_forking(TimerScript::new(self.readings.to_vec()));
-                    t.jitter().unwrap().set_rounds(self.rounds);
+                    t.jitter().unwrap().set_rounds(rounds_cur);
                     if *target_half {
                         t.next_u32();
                         counters.clone_from_into_half_pending += 1;
@@ -266,7 +364,7 @@ impl<'a> Exec<'a> {
                     t.clone_from_dyn(g.as_ref());
                     g = t;
                     b.half = false;
-                    self.rebase(reg, &mut g, b.k, &mut native, &mut cost);
+                    self.rebase(reg, &mut g, b.k, rounds_cur, &mut native, &mut cost);
                 }
             }
         }
@@ -281,6 +379,7 @@ struct Counters {
     pending_half_discarded: u64,
     clones_with_half_pending: u64,
     clone_from_into_half_pending: u64,
+    aborted_calls: u64,
     known_corner: u64,
 }
 
@@ -294,6 +393,8 @@ pub fn run(reg: &dyn Registry, ctx: &Ctx) -> Outcome {
     alphabet.push(Step::CloneSwitch);
     alphabet.push(Step::CloneFromSwitch { target_half: false });
     alphabet.push(Step::CloneFromSwitch { target_half: true });
+    alphabet.push(Step::SetRounds(1));
+    alphabet.push(Step::SetRounds(3));
     for op in [Op::U32, Op::U64, Op::Fill(3), Op::Fill(8)] {
         alphabet.push(Step::CloneProbe(op));
     }
@@ -378,6 +479,55 @@ pub fn run(reg: &dyn Registry, ctx: &Ctx) -> Outcome {
             }
             ctx.add("states", count as u64);
             ctx.add("value_directed_starts", 1);
+        }
+    }
+
+    // output calls whose timer fails part-way (the panic is caught, the generator is used again): nothing
+    // was returned, so the next output call must collect afresh - whatever call was aborted, whatever was
+    // pending before it
+    {
+        let depth = 3usize;
+        let max_words = depth * 2 + 2;
+        for rounds in [1u8, 2, 3] {
+            let per = jitter_env::readings_per_word(rounds);
+            let mut alpha3: Vec<Step> = [Op::U32, Op::U64, Op::Fill(3), Op::Fill(9)].iter().cloned().map(Step::Out).collect();
+            for op in [Op::U32, Op::U64, Op::Fill(3), Op::Fill(9)] {
+                for k in [0usize, 4, per - 1] {
+                    alpha3.push(Step::Abort(op.clone(), k));
+                }
+            }
+            alpha3.push(Step::SetRounds(if rounds == 1 { 2 } else { 1 }));
+            let readings = jitter_env::benign_readings(ctx.seed ^ 0x16AB ^ ((rounds as u64) << 16), 3, max_words + 4, 8);
+            let (native, cost) = native_twin(reg, &readings, rounds, None, 0, max_words);
+            let ex = Exec { ctx, init_pool: None, rounds, per_word: per, native: &native, cost: &cost, readings: &readings };
+            let n = alpha3.len();
+            let count = n.pow(depth as u32);
+            let cs: Vec<Counters> = (0..count)
+                .into_par_iter()
+                .map(|mut idx| {
+                    let mut hist = Vec::with_capacity(depth);
+                    for _ in 0..depth {
+                        hist.push(alpha3[idx % n].clone());
+                        idx /= n;
+                    }
+                    let mut c = Counters::default();
+                    ex.run(reg, &hist, &mut c);
+                    c
+                })
+                .collect();
+            for c in cs {
+                total.executions += c.executions;
+                total.transitions += c.transitions;
+                total.with_half_pending += c.with_half_pending;
+                total.pending_half_discarded += c.pending_half_discarded;
+                total.aborted_calls += c.aborted_calls;
+                total.known_corner += c.known_corner;
+            }
+            ctx.add("states", count as u64);
+        }
+        ctx.set("aborted_calls", total.aborted_calls);
+        if total.aborted_calls == 0 {
+            ctx.machinery("anti-vacuity: no aborted call was executed");
         }
     }
 
@@ -473,7 +623,7 @@ pub fn run(reg: &dyn Registry, ctx: &Ctx) -> Outcome {
             traces: "executions",
             evaluations: "executions",
             distinct: "states",
-            rule: "states = every history of the stated depth over {next_u32, next_u64, fill_bytes(0..=9,12,16), clone-and-continue-on-clone, clone_from-into-{fresh, half-pending}-generator-and-continue-there, clone-and-take-one-output-from-the-clone(u32|u64|fill3|fill8)} for rounds 1,2,3,64,255; every step is checked for its value (native twin) and for the number of timer readings it performed (own cursor); distinct by construction".into(),
+            rule: "states = every history of the stated depth over {next_u32, next_u64, fill_bytes(0..=9,12,16), clone-and-continue-on-clone, clone_from-into-{fresh, half-pending}-generator-and-continue-there, set_rounds(1|3), output calls aborted by a failing timer at reading 0 / 4 / last of the call, clone-and-take-one-output-from-the-clone(u32|u64|fill3|fill8)} for rounds 1,2,3,64,255; every step is checked for its value (native twin) and for the number of timer readings it performed (own cursor); distinct by construction".into(),
         },
     }
 }
